@@ -385,9 +385,20 @@ def validate_traces(ctx, traces, tag):
 
 def run(ctx):
   q = ctx.quick
-  r = ctx.tlc('Integrators', 'Integrators_quick.cfg')
+  from concurrent.futures import ThreadPoolExecutor
+  pool = ThreadPoolExecutor(4)          # independent machines, model checked side by side
+  jobs = {
+      'i': pool.submit(ctx.tlc, 'Integrators', 'Integrators_quick.cfg', workers=4),
+      'a': pool.submit(ctx.tlc, 'IntegratorArgs', 'IntegratorArgs.cfg', workers=2),
+      'r4': pool.submit(ctx.tlc, 'RK4Order', 'RK4Order.cfg', workers=2),
+      'rp': pool.submit(ctx.tlc, 'RK4Order', 'RK4Order_perturbed.cfg', workers=2, expect_violation=True, tag='rk4_perturbed', coverage=False),
+      't': pool.submit(ctx.tlc, 'ImexTableaux', 'ImexTableaux_quick.cfg' if q else 'ImexTableaux.cfg', workers=6),
+  }
+  if not q:
+    jobs['t4'] = pool.submit(ctx.tlc, 'ImexTableaux', 'ImexTableaux_n4.cfg', tag='imex_n4', timeout=7200, workers=6)
+  r = jobs['i'].result()
   ctx.require_actions(r, ['ExecF', 'ExecG', 'ExecGinv', 'ExecLin'])
-  ra = ctx.tlc('IntegratorArgs', 'IntegratorArgs.cfg')
+  ra = jobs['a'].result()
   amp = r.cases
   if len(amp) < 100:
     raise common.MachineryError('too few amplification cases exported')
@@ -406,11 +417,11 @@ def run(ctx):
     ctx.mismatch(kind, m['case'], m['sig'], m['detail'])
   # Carpenter-Kennedy RK4 in arbitrary-precision fixed point: full order-4 conditions in TLC, coefficients
   # and explicit amplification factors replayed; a perturbed coefficient table must be refuted by TLC
-  r4 = ctx.tlc('RK4Order', 'RK4Order.cfg', workers=2)
+  r4 = jobs['r4'].result()
   ctx.require_actions(r4, ['Stage'])
   if len(r4.cases) != 2:
     raise common.MachineryError('RK4Order: expected two exported behaviours')
-  rp = ctx.tlc('RK4Order', 'RK4Order_perturbed.cfg', workers=2, expect_violation=True, tag='rk4_perturbed', coverage=False)
+  rp = jobs['rp'].result()
   if not rp.violated:
     raise common.MachineryError('RK4Order: a coefficient perturbed by 1e-9 is not refuted by the order conditions')
   ctx.notes['rk4_perturbed_coefficient_refuted_by_TLC'] = rp.violated
@@ -421,10 +432,10 @@ def run(ctx):
   ctx.replayed += 2
   ctx.comparisons += 14 + 40 + 3
   # user supplied tableaux: every zero/non-zero pattern of 2- and 3-stage tableaux + named pairs
-  rt = ctx.tlc('ImexTableaux', 'ImexTableaux_quick.cfg' if q else 'ImexTableaux.cfg')
+  rt = jobs['t'].result()
   ctx.require_actions(rt, ['ExecF', 'ExecG', 'ExecGinv', 'ExecLin'])
   if not q:      # four stages: explicit and implicit halves varied separately (9,216 patterns)
-    rt4 = ctx.tlc('ImexTableaux', 'ImexTableaux_n4.cfg', tag='imex_n4', timeout=7200)
+    rt4 = jobs['t4'].result()
     rt.cases.extend(c for c in rt4.cases if c['id'] == 'pattern')
   if len(rt.cases) < 100:
     raise common.MachineryError('too few tableau cases exported')
